@@ -579,6 +579,9 @@ func (h *fuzzHist) mismatch(c *Ctx, what, a, b string) {
 	if k := strings.Index(cw, " ("); k > 0 {
 		cw = cw[:k]
 	}
+	if k := strings.Index(cw, " ["); k > 0 {
+		cw = cw[:k]
+	}
 	if k := strings.Index(cw, "("); k > 0 {
 		cw = cw[:k]
 	}
